@@ -170,6 +170,17 @@ def run(ctx):
         import json
         rp = json.load(open(ctx.replay_in))
         d = os.path.join(ctx.bdir, 'replay'); od = os.path.join(d, 'out'); os.makedirs(od, exist_ok=True)
+        if rp.get('klass') == 'cli_multi_file':
+            for n, t in rp['files'].items(): open(os.path.join(d, n), 'w').write(t)
+            words = rp['command'].split()[1:]
+            cmd = [flatcc] + [(os.path.join(d, w) if w.endswith('.fbs') else od if w == 'out' else w) for w in words]
+            rc, so, se = U.run(cmd + ['-I', d], timeout=60)
+            files = sorted(os.listdir(od)); diag = 'error' in se
+            ctx.count('replay', klass='replay'); ctx.log('rc=%s files=%r stderr=%s' % (rc, files, se[:300]))
+            if (diag and rc == 0) or (not diag and rc != 0) or [f for f in files if f.startswith('badfile')]:
+                ctx.violation(rp['key'], 'still fails: exit status %s, diagnostic printed: %s, output files %r' % (rc, diag, files), rp)
+            ctx.finish_args = dict(rule='replay of one recorded command line', explanation='replay')
+            return
         opts = ','.join(o for o in rp['options'].split(',') if not o.startswith('inpath=')) or '-'
         if 'schema_hex' in rp:
             c = {'klass': rp['klass'], 'kind': 'buf', 'opts': opts, 'gen': rp['generate_mode'], 'name': rp.get('name', 'schema'),
@@ -468,6 +479,49 @@ def run(ctx):
         elif rc != 0 and (n > 0 or not se.strip()):
             ctx.violation('cli-failure-protocol', 'flatcc executable failed (rc %s) but %s' % (rc, 'left %d output files' % n if n else 'printed no diagnostic'), rp)
 
+    # ---- CLI with SEVERAL source files: exit status must be non-zero iff any diagnostic was printed, whichever position the failing
+    #      file has; no output file may exist for the failing input
+    goods = [t for t in valid_texts[:8]]
+    bads = ['table Bad { a:int }\n', 'table Bad { a:NoSuchType; }\n', 'struct Bad { }\n', 'table Bad { a:int (id: 1); }\n', 'enum Bad:ubyte { A = 300 }\n', 'tabel Bad { }\n']
+    optsets = [[], ['-a'], ['-a', '--json'], ['--stdout'], ['-a', '--stdout'], ['--schema'], ['-w'], ['-v'], ['--json'], ['-c', '-w', '-r'], ['--outfile=OUT'], ['-d']]
+    mjobs = []
+    for k in range(60 if T else 24):
+        ng = rng.choice([1, 2, 3])
+        pos = rng.choice(['first', 'middle', 'last', 'none', 'none2'] if ng > 1 else ['first', 'last', 'none'])
+        mjobs.append((k, [rng.choice(goods) for _ in range(ng)], rng.choice(bads), pos, optsets[k % len(optsets)]))
+    def mjob(a):
+        k, gs, bad, pos, opts = a
+        d = os.path.join(cli, 'm%d' % k); out = os.path.join(d, 'out'); os.makedirs(out, exist_ok=True)
+        names = []
+        for j, t in enumerate(gs):
+            p = os.path.join(d, 'good%d.fbs' % j); open(p, 'w').write(t); names.append(p)
+        if not pos.startswith('none'):
+            bp = os.path.join(d, 'badfile.fbs'); open(bp, 'w').write(bad)
+            names.insert({'first': 0, 'middle': max(1, len(names) // 2), 'last': len(names)}[pos], bp)
+        o = [x.replace('OUT', os.path.join(out, 'cat.h')) for x in opts]
+        rc, so, se = U.run([flatcc] + o + ['-o', out, '-I', d] + names, timeout=60)
+        files = sorted(os.listdir(out))
+        shutil.rmtree(d, ignore_errors=True)
+        return rc, files, se, len(so), [os.path.basename(n) for n in names]
+    for (k, gs, bad, pos, opts), (rc, files, se, nso, names) in zip(mjobs, U.pmap(mjob, mjobs)):
+        ctx.count('clim%d' % k, klass='cli_multi_file')
+        diag = 'error' in se
+        rp = {'klass': 'cli_multi_file', 'command': 'flatcc %s -o out %s' % (' '.join(opts), ' '.join(names)), 'failing_file_position': pos,
+              'files': dict([('good%d.fbs' % j, t) for j, t in enumerate(gs)] + ([] if pos.startswith('none') else [('badfile.fbs', bad)])),
+              'exit_status': rc, 'stderr': se[:600], 'output_files': files}
+        badout = [f for f in files if f.startswith('badfile')]
+        if rc < 0 or rc in (124, 134, 139):
+            ctx.violation('cli-crash', 'flatcc executable died (rc %s) on several source files' % rc, rp)
+        elif diag and rc == 0:
+            ctx.violation('cli-multi-file:success-with-diagnostic', 'flatcc exits 0 although it printed a diagnostic for one of its source files (failing file %s of %d): %s' % (
+                pos, len(names), se.strip().split('\n')[0][:160]), rp)
+        elif not diag and rc != 0:
+            ctx.violation('cli-multi-file:failure-without-diagnostic', 'flatcc exits %s without an error diagnostic' % rc, rp)
+        elif badout:
+            ctx.violation('cli-multi-file:output-for-failed-input', 'flatcc left output %r for the source file it rejected' % badout, rp)
+        elif pos.startswith('none') and rc == 0 and not files and nso == 0:
+            ctx.violation('cli-multi-file:no-output', 'flatcc exits 0 for valid source files but produced nothing', rp)
+
     ctx.trusted = lib.DEFAULT_TRUSTED + ['clang ASan/UBSan/LSan runtimes as the only observers of memory errors, leaks (per cycle: __lsan_do_recoverable_leak_check) and alarm() of hangs',
                                          'harness/compile_fuzz.c, gen/schema_gen.py (validity and one-rule-invalidity of generated ASTs)']
     ctx.assumptions = ['memory safety / leak freedom / termination of the C front end are MONITORED on the generated inputs, not proved',
@@ -476,7 +530,7 @@ def run(ctx):
     ctx.finish_args = dict(
         rule='input classes: valid ASTs (buffer and file interface), ASTs invalid by one of ~40 semantic rules, token-level mutations, truncation at every byte, '
              'random bytes / token soup, limit-aimed stress shapes, include chains/cycles/repeats/limits/missing/mutated, x 21 generator option sets and parser option '
-             'toggles, generate called only-on-success or always; 16 parallel histories of create/parse/generate/destroy cycles; CLI exit status on a sample. '
+             'toggles, generate called only-on-success or always; 16 parallel histories of create/parse/generate/destroy cycles; CLI exit status on a sample and on command lines with several source files (failing file first / middle / last / absent, 12 option sets). '
              'distinct = distinct (options, input) pairs; every case runs the full cycle',
         explanation='protocol theorems re-checked (thin); every case judged by the property statement (crash/sanitizer/leak/hang, rc vs diagnostics, no output after a failed parse, '
                     'expected accept/reject for generated ASTs)')
